@@ -392,13 +392,15 @@ Proof.
   destruct l as [|a' l']; [left; auto | right; apply IH; auto].
 Qed.
 
-(* With valid credentials the request ends with the registry's non-401 answer. *)
+(* With valid credentials the request ends with the registry's non-401 answer:
+   the credential for the challenged scheme exists and is complete (no
+   ENoCred/EMissing), the token endpoint and the registry accept it, the schemes
+   are known and the body can be re-sent. *)
 Lemma valid_credentials_succeed clean cf c rq script :
   let '(evs, c', r) := do_request clean cf c rq script in
   r <> RBad ->
   rq_body rq <> BOnce ->
-  cred_empty (cf_creds cf (rq_host rq)) = false ->
-  c_user (cf_creds cf (rq_host rq)) && c_pass (cf_creds cf (rq_host rq)) = true ->
+  r <> RErr ENoCred -> r <> RErr EMissing ->
   (forall s, ~ In (s, AFail) evs) ->
   (forall h a hdr, ~ In (SReg h a true, A401 hdr) evs) ->
   (forall s hdr ps, In (s, A401 hdr) evs -> parse_challenge hdr <> Ch SchUnknown ps) ->
@@ -408,7 +410,7 @@ Proof.
   pose proof (do_request_budget clean cf c rq script) as B.
   destruct (do_request clean cf c rq script) as [[evs c'] r].
   destruct B as (B1 & B2 & O).
-  intros Hbad Hbody Hcred Hup Hfail Hfresh Hknown.
+  intros Hbad Hbody Hnc Hmiss Hfail Hfresh Hknown.
   destruct r as [[|]|[| | |]|]; simpl in O; try congruence.
   - exfalso. destruct O as (h & a & fresh & hdr & L & [->|(ps & P)]).
     + apply (Hfresh h a hdr). apply (last_in _ _ _ L). discriminate.
@@ -416,4 +418,16 @@ Proof.
   - auto.
   - exfalso. destruct O as (s & L & Hs). apply (Hfail s).
     apply (last_in _ _ _ L). intro E. rewrite E in Hs. discriminate.
+Qed.
+
+(* which credentials are complete for which flow (the causes of ENoCred/EMissing) *)
+Lemma missing_credentials_cause clean cf c rq script :
+  let '(evs, c', r) := do_request clean cf c rq script in
+  (r = RErr ENoCred -> cred_empty (cf_creds cf (rq_host rq)) = true) /\
+  (r = RErr EMissing ->
+   c_user (cf_creds cf (rq_host rq)) && c_pass (cf_creds cf (rq_host rq)) = false).
+Proof.
+  pose proof (do_request_budget clean cf c rq script) as B.
+  destruct (do_request clean cf c rq script) as [[evs c'] r].
+  destruct B as (_ & _ & O). split; intros ->; exact O.
 Qed.
